@@ -250,7 +250,7 @@ fn build_sub(
     for (key, value) in mapping {
         match key.as_str() {
             Some(attribute_key)
-                if !attribute_key.eq("type") && !attribute_key.starts_with("typeDef") =>
+                if !attribute_key.eq("type") && !attribute_key.starts_with("typeDef ") =>
             {
                 let path_of_sub = [path, &[attribute_key]].concat();
                 out_mapping.insert(
